@@ -21,6 +21,10 @@ def make(family, rng, tier):
         return exgen.gen(rng, "C02", tier)
     if family == "walk":
         return walks.gen_walk(rng)
+    if family == "chaos":
+        scn = sysgen.gen_chaos(rng, tier)
+        scn["oracles"] = ["model"]
+        return scn
     scn = sysgen.gen(rng, None, "C02", tier)
     scn["oracles"] = []
     return scn
@@ -28,7 +32,8 @@ def make(family, rng, tier):
 
 def plan(tier):
     q = tier == "quick"
-    return [("walk", 6000 if q else 300000), ("ex", 3000 if q else 50000), ("sys", 3000 if q else 60000)]
+    return [("walk", 6000 if q else 300000), ("ex", 3000 if q else 50000), ("sys", 3000 if q else 60000),
+            ("chaos", 1000 if q else 20000)]
 
 
 def extra(tier, seed):
